@@ -26,8 +26,7 @@ Definition gem_cur := option (bytes * list bytes).     (* current section: name,
 Definition gem_flush (cur : gem_cur) : list gem_section :=
   match cur with None => [] | Some (n, sp) => [(n, rev sp)] end.
 
-(* parseLockfileSections; note that scanner.Err() is not consulted after the loop, so a too-long
-   line silently ends the input *)
+(* parseLockfileSections: the loop over the delivered lines (scanner.Err() is checked after it, see parse_gemfile) *)
 Fixpoint gem_sections (ls : list bytes) (cur : gem_cur) : outcome (list gem_section) :=
   match ls with
   | [] => Ok (gem_flush cur)
@@ -104,7 +103,14 @@ Definition gem_extract (secs : list gem_section) : list pkg :=
 Definition gem_run (ls : list bytes) (cur : gem_cur) : outcome (list pkg) :=
   match gem_sections ls cur with Ok secs => Ok (gem_extract secs) | Err e => Err e | Panic => Panic end.
 
-Definition parse_gemfile (s : bytes) : outcome (list pkg) := gem_run (fst (scan_lines s)) None.
+(* scanner.Err() is consulted after the loop (fix 3rd commit of this area): a too-long line is an error *)
+Definition parse_gemfile (s : bytes) : outcome (list pkg) :=
+  let (toks, toolong) := scan_lines s in
+  match gem_sections toks None with
+  | Ok secs => if toolong then Err ETooLong else Ok (gem_extract secs)
+  | Err e => Err e
+  | Panic => Panic
+  end.
 
 (* ------------------------------------------------------------------ records, layout, render *)
 Inductive gem_kind := KGit | KGem | KPath | KPlugin.
